@@ -415,9 +415,14 @@ class ClassObject(Object, Callable):
         # inheritance cycles (class A(B) / class B(A) in modules importing
         # each other): a class whose attributes are being collected has none yet
         attrs = self.__dict__['_attrs'] = {}
-        for b in reversed(self.bases):
-            attrs.update(b._attrs)
-        attrs.update(self._cls_attrs)
+        try:
+            for b in reversed(self.bases):
+                attrs.update(b._attrs)
+            attrs.update(self._cls_attrs)
+        except BaseException:
+            # an interrupted collection (RecursionError) must not stay cached
+            del self.__dict__['_attrs']
+            raise
         return attrs
 
     @context_property
@@ -456,11 +461,15 @@ class InstanceValue(Object):
         """Attributes assigned through self in the class and in its bases"""
         self.__dict__['_assigned'] = {}  # see ClassObject._attrs
         attrs = {}  # type: Attributes
-        for b in reversed(self.cls.bases):
-            o = b.call(self.ctx)
-            if isinstance(o, InstanceValue):
-                attrs.update(o._assigned)
-        attrs.update(self.cls.scope.top.assigns(self.ctx).get(self, {}))
+        try:
+            for b in reversed(self.cls.bases):
+                o = b.call(self.ctx)
+                if isinstance(o, InstanceValue):
+                    attrs.update(o._assigned)
+            attrs.update(self.cls.scope.top.assigns(self.ctx).get(self, {}))
+        except BaseException:
+            del self.__dict__['_assigned']
+            raise
         return attrs
 
     @cached_property
@@ -470,14 +479,18 @@ class InstanceValue(Object):
         # see ClassObject._attrs; collecting the assigned attributes may come
         # back here to look up a method: the class part is there by then
         attrs = self.__dict__['_attrs'] = {}  # type: Attributes
-        for b in reversed(self.cls.bases):
-            o = b.call(self.ctx)
-            if o and not isinstance(o, InstanceValue):
-                # instance of a runtime class; what else a callable "base"
-                # returns (class C(func)) need not have an attribute table
-                attrs.update(getattr(o, '_attrs', None) or {})
-        attrs.update(self.cls._attrs)
-        attrs.update(self._assigned)
+        try:
+            for b in reversed(self.cls.bases):
+                o = b.call(self.ctx)
+                if o and not isinstance(o, InstanceValue):
+                    # instance of a runtime class; what else a callable "base"
+                    # returns (class C(func)) need not have an attribute table
+                    attrs.update(getattr(o, '_attrs', None) or {})
+            attrs.update(self.cls._attrs)
+            attrs.update(self._assigned)
+        except BaseException:
+            del self.__dict__['_attrs']
+            raise
         return attrs
 
 
